@@ -118,7 +118,9 @@ Hadamard(y, k) ==
        ELSE /\ acc' = acc
             /\ Step("hadamard", y, acc, "panic", k)
 
-\* div_scalar_inplace(s): terminal (the state leaves the integers).
+\* div_scalar_inplace(s): terminal (the state leaves the integers).  "All scalars" includes divisors far below the
+\* machine epsilon: 2^-30 and -2^-25, written as rationals (the quotient by a power of two is exact in single precision).
+TinyScalars == {[n |-> 1, d |-> 1073741824], [n |-> -1, d |-> 33554432]}
 DivScalar(s) ==
   /\ ~final /\ UNCHANGED <<start, acc>> /\ final' = TRUE
   /\ Step("div", acc, DivBy(acc, s), "ok", s)
@@ -170,6 +172,7 @@ Next ==
   \/ \E op \in ElemOps, y \in Operands(acc) : Binary(op, y)
   \/ \E y \in Operands(acc), k \in {1, 2, -1} : Hadamard(y, k)
   \/ \E s \in {1, 2, 3, -4} : DivScalar(s)
+  \/ \E s \in TinyScalars : DivScalar(s)
   \/ \E ys \in MeanOperands(acc) : Mean(ys)
 
 Spec == Init /\ [][Next]_vars
